@@ -809,7 +809,10 @@ class Interp:
                 c = obj.content
                 if isinstance(c, A.SeqVal):
                     if isinstance(key, slice):
-                        raise EngineError("slice of symbolic list")
+                        # python clamps slice bounds; here the slice is required to lie inside the list (side obligation)
+                        st_, ln_ = A._slice_bounds(key, c.length)
+                        fn_ = c.fn
+                        return Ref(cur().alloc(Content("list", A.SeqVal(ln_, lambda i, st_=st_, fn_=fn_: fn_(A.simp(sv.add(st_, i)))))), "list")
                     i = A._norm_index(key, c.length)
                     return c.fn(i)
                 return self._seq_getitem(c, key, aslist=True)
@@ -1181,6 +1184,13 @@ class Interp:
     def py_eq(self, a, b):
         if a is None or b is None:
             return a is None and b is None
+        from .text import LineVal, line_eq
+        if isinstance(a, LineVal) or isinstance(b, LineVal):
+            if isinstance(a, LineVal) and isinstance(b, str):
+                return line_eq(a, b)
+            if isinstance(b, LineVal) and isinstance(a, str):
+                return line_eq(b, a)
+            raise EngineError("comparison of file lines")
         if isinstance(a, str) or isinstance(b, str):
             from .lib import DType
             if isinstance(a, DType) or isinstance(b, DType):
@@ -1338,11 +1348,36 @@ class Interp:
                     raise EngineError("filtered comprehension with symbolic filter over non-scalar elements")
                 return Ref(cur().alloc(Content("list", A.compact([norm(x) for x in out], keeps))), "list")
         except _SymComp as sc:
-            if len(gens) != 1 or gens[0].ifs:
-                raise EngineError("symbolic comprehension with filter / nesting")
+            if len(gens) != 1:
+                raise EngineError("symbolic comprehension with nesting")
             n, item_at = sc.sym
             g = gens[0]
             env0 = dict(frame.env)
+            if g.ifs:
+                # [elt for x in seq if cond(x)]: the items at the positions where cond holds, in increasing order of position
+                # (relational contract of relops.select: SEL enumerates the selected positions increasingly)
+                from .relops import select
+
+                def mask(i, env0=env0, g=g):
+                    f2 = Frame(frame.module, dict(env0), frame.fname)
+                    self.assign(g.target, item_at(i), f2)
+                    conds = []
+                    for c in g.ifs:
+                        v = norm(self.eval(c, f2))
+                        if isinstance(v, SV) and v.is_bool:
+                            conds.append(v)
+                        elif isinstance(v, bool):
+                            conds.append(v)
+                        else:
+                            raise EngineError("filter of a symbolic comprehension is not a boolean")
+                    return sv.and_(*conds) if len(conds) != 1 else conds[0]
+                _, sel_app, _, cnt = select(mask, n)
+
+                def fnf(t, env0=env0, g=g):
+                    f2 = Frame(frame.module, dict(env0), frame.fname)
+                    self.assign(g.target, item_at(sel_app(t)), f2)
+                    return self.eval(node.elt, f2)
+                return Ref(cur().alloc(Content("list", A.SeqVal(A.simp(cnt), fnf))), "list")
 
             def fn(i, env0=env0, g=g):
                 f2 = Frame(frame.module, dict(env0), frame.fname)
@@ -1375,6 +1410,10 @@ class Interp:
             c = v.content
             return c.length, c.fn
         if isinstance(v, A.Arr) and v.shape and not A.dim_conc(v.shape[0]):
+            if v.ndim == 1:
+                # the positions an iteration visits are inside the array by construction: no index-bounds obligation
+                rd = v.reader()
+                return v.shape[0], (lambda i: rd((i,)))
             return v.shape[0], (lambda i: A.getitem(v, i))
         from .text import TokList
         if isinstance(v, TokList) and not v.concrete():
